@@ -86,7 +86,7 @@ theorem query_sound_partial (kb : List Rule) (strategy : Strategy) (maxDepth max
 /-- witness for the `max_solutions > 1` gap (finding F-C09c): one rule `X == 1 ⇒ G := true`, query
 `G == true`, `max_solutions = 3`: the only solution is rolled back while the search looks for two
 more, the query is still reported provable, and `G` is absent from the facts handed back. -/
-def cexKb : List Rule := [⟨.atom ⟨6, .eq, .num 1⟩, [(5, .bool true)]⟩]
+def cexKb : List Rule := [⟨.atom ⟨6, .eq, .num 1⟩, [(5, .bool true)], []⟩]
 def cexStore : Store := ⟨fun k => if k = 6 then some (.num 1) else none, []⟩
 def cexGoal : Atom := ⟨5, .eq, .bool true⟩
 
@@ -125,7 +125,7 @@ theorem query_eq_fast (kb : List Rule) (strategy : Strategy) (maxDepth maxSol : 
 /-! ### bounded completeness (DFS) -/
 
 /-- **Bounded completeness of the depth-first search.**  Knowledge base with pairwise consistent
-actions (`KbCons`: no two rule actions give one field different values — NO restriction on the
+`Set` actions (`KbCons`: every action is a `Set` and no two give one field different values — NO restriction on the
 conditions of the rules that are not used in the derivation: And/Or trees, any comparison), any
 initial store compatible with them (`Compat`; any enclosing undo frames), every `max_depth`, every
 `max_solutions`, every order of the top-level candidate list and every sub-goal candidate function
@@ -231,7 +231,7 @@ def wSub (kb : List Rule) (a : Atom) : List Nat :=
 
 /-- R0: X == 1 ⇒ A := true;  R1: A == true ⇒ G := true -/
 def tightKb : List Rule :=
-  [ ⟨.atom ⟨6, .eq, .num 1⟩, [(0, .bool true)]⟩, ⟨.atom ⟨0, .eq, .bool true⟩, [(5, .bool true)]⟩ ]
+  [ ⟨.atom ⟨6, .eq, .num 1⟩, [(0, .bool true)], []⟩, ⟨.atom ⟨0, .eq, .bool true⟩, [(5, .bool true)], []⟩ ]
 
 /-- **The depth bound is exact**: with every other hypothesis of `dfs_complete_oracle` met, a
 derivation of height `max_depth + 2` (here 2, `max_depth = 0`) is not found. -/
@@ -244,7 +244,7 @@ theorem dfs_complete_depth_tight :
 
 /-- R0: X == 1 ⇒ A := Integer 1;  R1: A == Integer 1 ⇒ G := true -/
 def intKb : List Rule :=
-  [ ⟨.atom ⟨6, .eq, .num 1⟩, [(0, .int 1)]⟩, ⟨.atom ⟨0, .eq, .int 1⟩, [(5, .bool true)]⟩ ]
+  [ ⟨.atom ⟨6, .eq, .num 1⟩, [(0, .int 1)], []⟩, ⟨.atom ⟨0, .eq, .int 1⟩, [(5, .bool true)], []⟩ ]
 
 /-- **`noIntLit` is needed** (finding F-C09b): the sub-goal `A == 1` comes back from the pattern
 string as a Number and never matches the Integer the rule assigns. -/
@@ -257,9 +257,9 @@ theorem dfs_complete_needs_noIntLit :
 
 /-- Ra: X == 1 ⇒ A := true;  Rb: X == 1 ⇒ B := true, A := false;  R: A == true && B == true ⇒ G := true -/
 def clashKb : List Rule :=
-  [ ⟨.atom ⟨6, .eq, .num 1⟩, [(0, .bool true)]⟩,
-    ⟨.atom ⟨6, .eq, .num 1⟩, [(1, .bool true), (0, .bool false)]⟩,
-    ⟨.and (.atom ⟨0, .eq, .bool true⟩) (.atom ⟨1, .eq, .bool true⟩), [(5, .bool true)]⟩ ]
+  [ ⟨.atom ⟨6, .eq, .num 1⟩, [(0, .bool true)], []⟩,
+    ⟨.atom ⟨6, .eq, .num 1⟩, [(1, .bool true), (0, .bool false)], []⟩,
+    ⟨.and (.atom ⟨0, .eq, .bool true⟩) (.atom ⟨1, .eq, .bool true⟩), [(5, .bool true)], []⟩ ]
 
 /-- **Consistency of the actions is needed** (finding F-C09e, interference): all conditions are
 conjunctive equality tests, the goal has a (syntactic) derivation of height 2 ≤ `max_depth`, and
@@ -282,13 +282,13 @@ candidate that is tried first and fails after deriving a fact (R1: proves `A`, t
 `D`), a shared sub-goal (`A`, needed by R2 and by R4), a cycle (R6) tried before the productive
 rule, and a derivation of height 3. -/
 def hornKb : List Rule :=
-  [ ⟨.atom ⟨7, .eq, .num 1⟩, [(3, .bool true)]⟩,                                              -- R0: Y == 1 ⇒ D  (dead end)
-    ⟨.and (.atom ⟨0, .eq, .bool true⟩) (.atom ⟨3, .eq, .bool true⟩), [(5, .bool true)]⟩,      -- R1: A && D ⇒ G
-    ⟨.and (.atom ⟨0, .eq, .bool true⟩) (.atom ⟨1, .eq, .bool true⟩), [(5, .bool true)]⟩,      -- R2: A && B ⇒ G
-    ⟨.atom ⟨6, .eq, .num 1⟩, [(0, .bool true)]⟩,                                              -- R3: X == 1 ⇒ A
-    ⟨.and (.atom ⟨0, .eq, .bool true⟩) (.atom ⟨2, .eq, .bool true⟩), [(1, .bool true)]⟩,      -- R4: A && C ⇒ B
-    ⟨.atom ⟨6, .eq, .num 1⟩, [(2, .bool true)]⟩,                                              -- R5: X == 1 ⇒ C
-    ⟨.atom ⟨5, .eq, .bool true⟩, [(0, .bool true)]⟩ ]                                          -- R6: G ⇒ A  (cycle)
+  [ ⟨.atom ⟨7, .eq, .num 1⟩, [(3, .bool true)], []⟩,                                              -- R0: Y == 1 ⇒ D  (dead end)
+    ⟨.and (.atom ⟨0, .eq, .bool true⟩) (.atom ⟨3, .eq, .bool true⟩), [(5, .bool true)], []⟩,      -- R1: A && D ⇒ G
+    ⟨.and (.atom ⟨0, .eq, .bool true⟩) (.atom ⟨1, .eq, .bool true⟩), [(5, .bool true)], []⟩,      -- R2: A && B ⇒ G
+    ⟨.atom ⟨6, .eq, .num 1⟩, [(0, .bool true)], []⟩,                                              -- R3: X == 1 ⇒ A
+    ⟨.and (.atom ⟨0, .eq, .bool true⟩) (.atom ⟨2, .eq, .bool true⟩), [(1, .bool true)], []⟩,      -- R4: A && C ⇒ B
+    ⟨.atom ⟨6, .eq, .num 1⟩, [(2, .bool true)], []⟩,                                              -- R5: X == 1 ⇒ C
+    ⟨.atom ⟨5, .eq, .bool true⟩, [(0, .bool true)], []⟩ ]                                          -- R6: G ⇒ A  (cycle)
 def hornSub (a : Atom) : List Nat :=
   if a.field = 0 then [6, 3] else wSub hornKb a
 
@@ -313,13 +313,13 @@ example : (List.range 8).map (query hornKb .dfs 2 1 hornSub wGoal [1, 2] ⟨data
 
 /-- Derivations of nesting 0 on ARBITRARY knowledge bases (no consistency requirement at all):
 if the goal already holds, or some candidate rule whose condition is true in the initial facts
-makes the goal comparison true, the DFS (default `max_solutions = 1`, any `max_depth`, any
+fires without a failing action and makes the goal comparison true, the DFS (default `max_solutions = 1`, any `max_depth`, any
 candidate order, whatever the other candidates do before it) reports the goal provable. -/
 theorem dfs_complete_partial (kb : List Rule) (maxDepth : Nat) (subCands : Atom → List Nat)
     (goal : Atom) (topCands : List Nat) (st : Store)
     (h : evalAtom st.data goal = true ∨
       ∃ i r, i ∈ topCands ∧ kb[i]? = some r ∧ evalCond st.data r.cond = true ∧
-        evalAtom (applyActsData r.acts st.data) goal = true) :
+        (fireData r st.data).1 = true ∧ evalAtom (fireData r st.data).2 goal = true) :
     (query kb .dfs maxDepth 1 subCands goal topCands st).provable = true := by
   simp only [query, queryG, dfs, searchN]
   by_cases hg : evalAtom st.data goal = true
@@ -328,7 +328,7 @@ theorem dfs_complete_partial (kb : List Rule) (maxDepth : Nat) (subCands : Atom 
     cases h with
     | inl h => exact absurd h hg
     | inr h =>
-      obtain ⟨i, r, hi, hk, hc, ha⟩ := h
+      obtain ⟨i, r, hi, hk, hc, hok, ha⟩ := h
       -- generalise over the position of `i` in the candidate list and the solution counter
       suffices H : ∀ (cands : List Nat) (ns : Nat), i ∈ cands →
           (tryCands rbCode ⟨kb, 1, subCands⟩ true (searchN rbCode ⟨kb, 1, subCands⟩ maxDepth false) goal cands false
@@ -357,7 +357,7 @@ theorem dfs_complete_partial (kb : List Rule) (maxDepth : Nat) (subCands : Atom 
           · -- the distinguished candidate cannot fall through: its rule fires and the goal check succeeds
             subst hji
             obtain ⟨res, hres⟩ := candStep_fires ⟨kb, 1, subCands⟩ true
-              (searchN rbCode ⟨kb, 1, subCands⟩ maxDepth false) goal j false st ns r rfl hk hc ha
+              (searchN rbCode ⟨kb, 1, subCands⟩ maxDepth false) goal j false st ns r rfl hk hc hok ha
             rw [hres] at hcs; cases hcs
           · have : i ∈ rest := by
               cases hm with
@@ -368,10 +368,10 @@ theorem dfs_complete_partial (kb : List Rule) (maxDepth : Nat) (subCands : Atom 
 /-! Non-vacuity: a two-level chain with a wrong-value rule and a cycle; the DFS proves the goal,
 the facts handed back contain the derived intermediate fact, and the failing variant restores. -/
 def exKb : List Rule :=
-  [ ⟨.atom ⟨6, .eq, .num 1⟩, [(0, .bool true)]⟩,              -- R0: X == 1 ⇒ A := true
-    ⟨.atom ⟨0, .eq, .bool true⟩, [(5, .bool false)]⟩,          -- R1: A == true ⇒ G := false (wrong value)
-    ⟨.and (.atom ⟨0, .eq, .bool true⟩) (.atom ⟨6, .eq, .num 1⟩), [(5, .bool true)]⟩,  -- R2
-    ⟨.atom ⟨5, .eq, .bool true⟩, [(0, .bool true)]⟩ ]           -- R3: cycle G ⇒ A
+  [ ⟨.atom ⟨6, .eq, .num 1⟩, [(0, .bool true)], []⟩,              -- R0: X == 1 ⇒ A := true
+    ⟨.atom ⟨0, .eq, .bool true⟩, [(5, .bool false)], []⟩,          -- R1: A == true ⇒ G := false (wrong value)
+    ⟨.and (.atom ⟨0, .eq, .bool true⟩) (.atom ⟨6, .eq, .num 1⟩), [(5, .bool true)], []⟩,  -- R2
+    ⟨.atom ⟨5, .eq, .bool true⟩, [(0, .bool true)], []⟩ ]           -- R3: cycle G ⇒ A
 def exSub (a : Atom) : List Nat := if a.field = 0 then [0, 3] else if a.field = 5 then [1, 2] else []
 
 example : (query exKb .dfs 3 1 exSub cexGoal [1, 2] cexStore).provable = true := by decide
